@@ -46,6 +46,7 @@ ALPHA = ["a", "b", "x", "é", "漢", " "]
 # default linedelimiter (None): universal newlines -- "\n", "\r\n" and a bare "\r" end a line and read as
 # "\n"; the other characters str.splitlines() breaks at are ordinary characters for a text file
 UNIVERSAL_ALPHA = ALPHA + ["\r", "\r\n", "\x0b", "\x0c", "\x1c", "\x1d", "\x1e", "\x85", "\u2028", "\u2029"]
+LATIN_ALPHA = ["a", "b", "x", "\u00e9", " ", "\u00a7", "\u00ff"]          # encodable in latin-1
 
 
 GC_EACH_RUN = True  # see sim/worker.run_tape
@@ -108,15 +109,18 @@ def run_one(tape, cfg):
         if universal:
             delim = "\n"
         nfiles = 1 + tape.draw(3, "nfiles")
-        texts = [gen_text(tape, delim, cfg["maxlen"], UNIVERSAL_ALPHA if universal else ALPHA)
+        # files in a single-byte encoding: a non-ASCII delimiter then has other bytes than in UTF-8
+        latin1 = (not universal) and tape.chance(1, 6, "latin1")
+        texts = [gen_text(tape, delim, cfg["maxlen"],
+                          UNIVERSAL_ALPHA if universal else (LATIN_ALPHA if latin1 else ALPHA))
                  for _ in range(nfiles)]
         # a long file whose delimiter occurrence straddles the 8192-character buffer size of text I/O
         long_file = (not universal) and tape.chance(1, 10, "long_file")
         if long_file:
             texts[0] = "x" * (8192 - len(delim) + 1 + tape.draw(max(1, len(delim) - 1), "straddle")
                               - tape.draw(2, "shift")) + delim + texts[0]
-        datas = [t.encode() for t in texts]
-        maxb = max(len(d) for d in datas) + 2
+        datas = [t.encode("latin-1" if latin1 else "utf-8") for t in texts]
+        maxb =max(len(d) for d in datas) + 2
         blocksize = None if (tape.draw(5, "bsnone") == 0 or long_file) else 1 + tape.draw(maxb, "bs")
         fpp = None
         if blocksize is None and tape.chance(1, 2, "fpp"):
@@ -127,7 +131,7 @@ def run_one(tape, cfg):
         if blocksize is not None and tape.chance(1, 3, "two_reads"):
             blocksize2 = 1 + tape.draw(maxb, "bs2")
         api = ("read_bytes", "read_text")[tape.draw(2, "api")]
-        if universal:
+        if universal or latin1:
             api = "read_text"
         klass = tape.weighted([(4, "threads"), (3, "two_clients"), (2, "pickle"), (2, "io_error")], "klass")
         nworkers = 2 + tape.draw(3, "nw")
@@ -144,6 +148,8 @@ def run_one(tape, cfg):
         out.probe("two_blocksizes_one_compute")
     if universal:
         out.probe("universal_newlines")
+    if latin1:
+        out.probe("latin1_encoding")
     if long_file:
         out.probe("long_file_buffer_boundary")
     wl = {"delim": None if universal else delim, "texts": texts, "blocksize": blocksize, "blocksize2": blocksize2,
@@ -166,6 +172,8 @@ def run_one(tape, cfg):
         kw = {"linedelimiter": delim, "include_path": include_path}
         if universal:
             del kw["linedelimiter"]
+        if latin1:
+            kw["encoding"] = "latin-1"
         if bs is not None:
             kw["blocksize"] = bs
         if fpp is not None:
